@@ -119,3 +119,57 @@ def run_suite_case(case, prop, obs):
             os.remove(out)
         except OSError:
             pass
+
+
+# ------------------------------------------------------------------------------------------------
+# transient time series: one net object, the internal tables re-used from step to step
+_TRANSIENT = {"on_step": None, "registered": False}
+
+
+def transient_init():
+    """Register (once per worker) the H1 sink that hands every successful pipeflow of a running transient series to the
+    monitor callback of the property."""
+    import pandapipes._verif as v
+    if _TRANSIENT["registered"]:
+        return
+
+    def sink(ev, p):
+        cb = _TRANSIENT["on_step"]
+        if cb is not None and ev == "exit" and p["exc"] is None:
+            cb(p["net"])
+    v.register(sink)
+    _TRANSIENT["registered"] = True
+
+
+def run_transient_series(rng, obs, on_step):
+    """A transient heat time series with load profiles on a passive mesh or a heating loop; *on_step(net)* is called after every
+    pipeflow of the series.  Start pressures differ from every prescribed pressure (they must not leak into later steps)."""
+    import pandas as pd
+    from pandapower.control import ConstControl
+    from pandapower.timeseries import DFData
+    from pandapipes.timeseries import run_timeseries
+    from pvmon import netgen
+    if rng.random() < 0.5:
+        spec = netgen.gen_thermal_mesh(rng, two_feeders=False, max_sections=2)
+    else:
+        spec = netgen.gen_heating(rng, modes=["MF_DT", "MF_TR", "QE_MF"], source=str(rng.choice(["cpp", "cpm", "grid"])), max_sections=2, exchangers=False)
+    for j in spec["junctions"]:
+        j["pn_bar"] = float(rng.uniform(1.0, 4.0))
+    net = netgen.build(spec)
+    steps = int(rng.integers(3, 6))
+    for t, col in (("sink", "mdot_kg_per_s"), ("heat_consumer", "controlled_mdot_kg_per_s")):
+        if t in net and len(net[t]):
+            base = net[t][col].values.astype(float)
+            df = pd.DataFrame({int(i): b * rng.uniform(0.4, 1.5, steps) for i, b in zip(net[t].index, base)})
+            ConstControl(net, t, col, list(net[t].index), profile_name=list(df.columns), data_source=DFData(df))
+    opts = {"mode": str(rng.choice(["sequential", "bidirectional"])), "use_numba": bool(rng.random() < 0.5)}
+    _TRANSIENT["on_step"] = on_step
+    try:
+        run_timeseries(net, time_steps=range(steps), transient=True, dt=float(rng.choice([60, 300])), iter=100, verbose=False,
+                       continue_on_divergence=True, **opts)
+        obs.count("transient_series")
+    except Exception as e:
+        obs.count("transient_series_raised_" + type(e).__name__)
+    finally:
+        _TRANSIENT["on_step"] = None
+    return spec, opts
